@@ -2,7 +2,7 @@
 //! C-ABI TLS client, against their Rust API twins. Exercises the Authorization, MinTlsVersion and
 //! CertificateMode conversions and the pass-through of unit id, range / index and role.
 //! args:       <repo path> <verification certs dir>
-//! or:         seq <server> <policy allow|deny|byrole> <unit> <role>:<op>:<start>:<n>[,...]   several sessions, one server
+//! or:         seq <server> <policy allow|deny|byrole|coils> <unit> <role>:<op>:<start>:<n>[,...]   several sessions, one server
 //! input line: <server> <client> <op> <decision> <unit> <start> <n>
 //!   server   = ffi | rust      (rodbus_server_create_tls_with_authz vs spawn_tls_server_task_with_authz)
 //!   client   = ffi | rust      (rodbus_client_channel_create_tls vs spawn_tls_client_task); ffi supports op rh only
@@ -24,6 +24,9 @@ struct AuthLog {
     allow: bool,
     /// role-sensitive policy: `operator` may do everything, `viewer` may read, anybody else nothing
     by_role: bool,
+    /// kind-sensitive policy `coils`: only the three coil callbacks allow (read_coils, write_single_coil,
+    /// write_multiple_coils), whatever the role
+    coils_only: bool,
     calls: Vec<String>,
 }
 
@@ -40,7 +43,7 @@ macro_rules! range_cb {
         extern "C" fn $name(unit: u8, range: ffi::AddressRange, role: *const c_char, ctx: *mut c_void) -> c_int {
             let mut l = unsafe { ctx_ref::<AuthLog>(ctx) }.lock().unwrap();
             l.calls.push(format!("{}:{}:{},{}:{}", $label, unit, range.start, range.count, role_of(role)));
-            if (l.by_role && by_role_allows($label, &role_of(role))) || (!l.by_role && l.allow) {
+            if (l.coils_only && $label.contains("coil")) || (!l.coils_only && ((l.by_role && by_role_allows($label, &role_of(role))) || (!l.by_role && l.allow))) {
                 ffi::Authorization::Allow.into()
             } else {
                 ffi::Authorization::Deny.into()
@@ -53,7 +56,7 @@ macro_rules! index_cb {
         extern "C" fn $name(unit: u8, index: u16, role: *const c_char, ctx: *mut c_void) -> c_int {
             let mut l = unsafe { ctx_ref::<AuthLog>(ctx) }.lock().unwrap();
             l.calls.push(format!("{}:{}:{}:{}", $label, unit, index, role_of(role)));
-            if (l.by_role && by_role_allows($label, &role_of(role))) || (!l.by_role && l.allow) {
+            if (l.coils_only && $label.contains("coil")) || (!l.coils_only && ((l.by_role && by_role_allows($label, &role_of(role))) || (!l.by_role && l.allow))) {
                 ffi::Authorization::Allow.into()
             } else {
                 ffi::Authorization::Deny.into()
@@ -73,6 +76,7 @@ range_cb!(a_wmr, "write_multiple_registers");
 struct RustAuth {
     allow: bool,
     by_role: bool,
+    coils_only: bool,
     log: Arc<Mutex<Vec<String>>>,
 }
 impl RustAuth {
@@ -80,7 +84,7 @@ impl RustAuth {
         let label = what.split(':').next().unwrap_or("").to_string();
         let role = what.rsplit(':').next().unwrap_or("").to_string();
         self.log.lock().unwrap().push(what);
-        if (self.by_role && by_role_allows(&label, &role)) || (!self.by_role && self.allow) {
+        if (self.coils_only && label.contains("coil")) || (!self.coils_only && ((self.by_role && by_role_allows(&label, &role)) || (!self.by_role && self.allow))) {
             Authorization::Allow
         } else {
             Authorization::Deny
@@ -331,12 +335,15 @@ fn sequence(env: &Env, p: &[&str]) -> String {
         return "FAIL:syntax".into();
     }
     let (server, policy, unit) = (p[1], p[2], p[3].parse::<u8>().unwrap());
-    let (allow, by_role) = (policy == "allow", policy == "byrole");
+    let (allow, by_role, coils_only) = (policy == "allow", policy == "byrole", policy == "coils");
     let d = format!("{}/ca2", env.certs);
     let sessions: Vec<Vec<&str>> = p[4].split(',').map(|x| x.split(':').collect()).collect();
     let cert_of = |role: &str| match role {
         "operator" => ("client_cert.pem", "client_key.pem"),
         "viewer" => ("client_otherrole_cert.pem", "client_otherrole_key.pem"),
+        // certificates WITHOUT a usable role: no role extension / two role extensions
+        "roleless" => ("client_roleless_cert.pem", "client_roleless_key.pem"),
+        "tworoles" => ("client_tworoles_cert.pem", "client_tworoles_key.pem"),
         _ => ("client_mixedrole_cert.pem", "client_mixedrole_key.pem"),
     };
     let run_sessions = |port: u16, calls: &dyn Fn() -> Vec<String>| -> String {
@@ -354,7 +361,7 @@ fn sequence(env: &Env, p: &[&str]) -> String {
     for _ in 0..8 {
         let port = free_port("127.0.0.1");
         if server == "ffi" {
-            let (log, ctx) = leak_ctx(AuthLog { allow, by_role, calls: Vec::new() });
+            let (log, ctx) = leak_ctx(AuthLog { allow, by_role, coils_only, calls: Vec::new() });
             let handler = ffi::AuthorizationHandler {
                 read_coils: Some(a_rc),
                 read_discrete_inputs: Some(a_rd),
@@ -416,7 +423,7 @@ fn sequence(env: &Env, p: &[&str]) -> String {
             }
         } else {
             let log = Arc::new(Mutex::new(Vec::new()));
-            let auth: Arc<dyn AuthorizationHandler> = Arc::new(RustAuth { allow, by_role, log: log.clone() });
+            let auth: Arc<dyn AuthorizationHandler> = Arc::new(RustAuth { allow, by_role, coils_only, log: log.clone() });
             let map = ServerHandlerMap::single(UnitId::new(unit), TenPoints.wrap());
             let addr = SocketAddr::new(IpAddr::from([127, 0, 0, 1]), port);
             let cfg = match rodbus::server::TlsServerConfig::new(
@@ -464,7 +471,7 @@ fn case(env: &Env, line: &str) -> String {
     for _ in 0..8 {
         let port = free_port("127.0.0.1");
         if server == "ffi" {
-            let (log, ctx) = leak_ctx(AuthLog { allow, by_role: false, calls: Vec::new() });
+            let (log, ctx) = leak_ctx(AuthLog { allow, by_role: false, coils_only: false, calls: Vec::new() });
             let set = decision != "unset";
             let handler = ffi::AuthorizationHandler {
                 read_coils: if set { Some(a_rc) } else { None },
@@ -531,7 +538,7 @@ fn case(env: &Env, line: &str) -> String {
             }
         } else {
             let log = Arc::new(Mutex::new(Vec::new()));
-            let auth: Arc<dyn AuthorizationHandler> = Arc::new(RustAuth { allow, by_role: false, log: log.clone() });
+            let auth: Arc<dyn AuthorizationHandler> = Arc::new(RustAuth { allow, by_role: false, coils_only: false, log: log.clone() });
             let map = ServerHandlerMap::single(UnitId::new(unit), TenPoints.wrap());
             let addr = SocketAddr::new(IpAddr::from([127, 0, 0, 1]), port);
             match env.rt.block_on(spawn_tls_server_task_with_authz(4, addr, map, auth, rust_tls_server_config(&env.repo), AddressFilter::Any, DecodeLevel::nothing())) {
